@@ -8,11 +8,23 @@
  *   len = step>0 ? (stop>start ? (stop-start-1)/step+1 : 0) : (stop<start ? (start-stop-1)/(-step)+1 : 0)
  * All spec arithmetic is done in 64-bit `long` on int-range inputs, so the spec itself cannot overflow.
  *
- * Stated bound: every extent n satisfies 1 <= n <= C05_NMAX = 2^31-1 (the library converts the extent to `int`).
+ * Stated bounds:
+ *   - every extent n satisfies 1 <= n <= C05_NMAX = 2^31-1 (the library converts the extent to `int`);
+ *   - LENGTH contracts (shape_slice) with an integer step: 1 <= |step| <= C05_STEP_MAX. The length is computed as
+ *     ceil((float)range / step); the equivalence of that float division with integer ceil-division is decided
+ *     bit-precisely by the SAT back end only for small divisors (the property quantifies over |step| <= 3).
+ *     INDEX contracts (slice) hold for every int step != 0.
+ *   - an integer index i on an axis of extent n satisfies -n <= i < n (Python raises IndexError otherwise);
+ *     the number of non-ellipsis parts does not exceed the rank (Python: "too many indices").
  */
 #include "spec/abi.h"
 
 #define C05_NMAX 2147483647UL
+#ifndef C05_STEP_MAX
+#define C05_STEP_MAX 3
+#endif
+/* the float length kernel is exact only while the range fits a float mantissa */
+#define C05_FLOAT_EXACT 16777216L
 
 typedef struct py_slice { long start, stop, step, len; } py_slice;
 
@@ -35,59 +47,150 @@ static inline py_slice py_slice_adjust(long n, int hs, long start, int hp, long 
   return r;
 }
 
+/* helpers used by known-finding regions: extent of axis a, Python-normalised start / stop for an extent n, and the
+ * distance walked |stop' - start'| (0 when the slice is empty) */
+#define C05_NA(shape, a) ((long)SV_AT(shape, a))
+#define C05_N(shape) C05_NA(shape, 0)
+#define C05_PYSTART(n, hs, start, hp, stop, ht, step) (py_slice_adjust(n, hs, start, hp, stop, ht, step).start)
+#define C05_PYSTOP(n, hs, start, hp, stop, ht, step)  (py_slice_adjust(n, hs, start, hp, stop, ht, step).stop)
+static inline long c05_span(long n, int hs, long start, int hp, long stop, int ht, long step)
+{
+  py_slice p = py_slice_adjust(n, hs, start, hp, stop, ht, step);
+  long d = p.step > 0 ? p.stop - p.start : p.start - p.stop;
+  return d > 0 ? d : 0;
+}
+static inline int c05_extents_ok(sv_t shape)
+{
+  int ok = SV_LEN(shape) <= CAP;
+  for (unsigned long t = 0; t < CAP; t++)
+    if (t < SV_LEN(shape)) ok = ok && SV_AT(shape, t) >= 1UL && SV_AT(shape, t) <= C05_NMAX;
+  return ok;
+}
+static inline int c05_step_ok(int step)
+{ return step != 0 && step >= -C05_STEP_MAX && step <= C05_STEP_MAX; }
+/* integer index i on an axis of extent n: valid range and Python's normalisation */
+static inline int c05_int_ok(long n, long i) { return -n <= i && i < n; }
+static inline unsigned long c05_int_norm(long n, long i) { return (unsigned long)(i < 0 ? n + i : i); }
+
 /* ---- shape of a 1-d slice: one kept axis whose extent is Python's length */
 static inline int c05_pre_shape1(sv_t shape)
 { return SV_LEN(shape) == 1UL && SV_AT(shape, 0) >= 1UL && SV_AT(shape, 0) <= C05_NMAX; }
 static inline int c05_post_shape1(sv_t shape, int hs, long start, int hp, long stop, int ht, long step, sv_t ret)
 {
-  py_slice p = py_slice_adjust((long)SV_AT(shape, 0), hs, start, hp, stop, ht, step);
+  py_slice p = py_slice_adjust(C05_N(shape), hs, start, hp, stop, ht, step);
   return SV_LEN(ret) == 1UL && SV_AT(ret, 0) == (unsigned long)p.len;
 }
-/* ---- source index of element k (= indices[0]) of a 1-d slice: start' + k*step, inside the source extent */
+/* ---- source index of element k (= indices[0]) of a 1-d slice: start' + k*step (the product is the library's own
+ *      unsigned long multiplication, MUL_ul: real operator natively and in bit-precise mode, uninterpreted in UF mode) */
 static inline int c05_pre_index1(sv_t indices, sv_t shape, int hs, long start, int hp, long stop, int ht, long step)
 {
   if (!(SV_LEN(shape) == 1UL && SV_AT(shape, 0) >= 1UL && SV_AT(shape, 0) <= C05_NMAX && SV_LEN(indices) == 1UL)) return 0;
-  py_slice p = py_slice_adjust((long)SV_AT(shape, 0), hs, start, hp, stop, ht, step);
+  py_slice p = py_slice_adjust(C05_N(shape), hs, start, hp, stop, ht, step);
   return SV_AT(indices, 0) < (unsigned long)p.len;
 }
 static inline int c05_post_index1(sv_t indices, sv_t shape, int hs, long start, int hp, long stop, int ht, long step, sv_t ret)
 {
-  py_slice p = py_slice_adjust((long)SV_AT(shape, 0), hs, start, hp, stop, ht, step);
-  long k = (long)SV_AT(indices, 0);
-  return SV_LEN(ret) == 1UL && SV_AT(ret, 0) == (unsigned long)(p.start + k * p.step) && SV_AT(ret, 0) < SV_AT(shape, 0);
+  py_slice p = py_slice_adjust(C05_N(shape), hs, start, hp, stop, ht, step);
+  /* start'+k*step < n is a theorem about py_slice_adjust (lemmas/c05_slice_in_range.lean); with step None it is also checked here */
+  return SV_LEN(ret) == 1UL && SV_AT(ret, 0) == (unsigned long)p.start + MUL_ul(SV_AT(indices, 0), (unsigned long)p.step)
+      && (ht || SV_AT(ret, 0) < SV_AT(shape, 0));
 }
 
-/* ---- the 8 {int,None}^3 encodings (i = int, n = None) */
-static inline int pre_verif_shape_slice_iii(sv_t shape, int start, int stop, int step) { return c05_pre_shape1(shape) && step != 0; }
-static inline int post_verif_shape_slice_iii(sv_t shape, int start, int stop, int step, sv_t ret) { return c05_post_shape1(shape, 1, start, 1, stop, 1, step, ret); }
-static inline int pre_verif_shape_slice_iin(sv_t shape, int start, int stop) { return c05_pre_shape1(shape); }
-static inline int post_verif_shape_slice_iin(sv_t shape, int start, int stop, sv_t ret) { return c05_post_shape1(shape, 1, start, 1, stop, 0, 0, ret); }
-static inline int pre_verif_shape_slice_ini(sv_t shape, int start, int step) { return c05_pre_shape1(shape) && step != 0; }
-static inline int post_verif_shape_slice_ini(sv_t shape, int start, int step, sv_t ret) { return c05_post_shape1(shape, 1, start, 0, 0, 1, step, ret); }
-static inline int pre_verif_shape_slice_inn(sv_t shape, int start) { return c05_pre_shape1(shape); }
-static inline int post_verif_shape_slice_inn(sv_t shape, int start, sv_t ret) { return c05_post_shape1(shape, 1, start, 0, 0, 0, 0, ret); }
-static inline int pre_verif_shape_slice_nii(sv_t shape, int stop, int step) { return c05_pre_shape1(shape) && step != 0; }
-static inline int post_verif_shape_slice_nii(sv_t shape, int stop, int step, sv_t ret) { return c05_post_shape1(shape, 0, 0, 1, stop, 1, step, ret); }
-static inline int pre_verif_shape_slice_nin(sv_t shape, int stop) { return c05_pre_shape1(shape); }
-static inline int post_verif_shape_slice_nin(sv_t shape, int stop, sv_t ret) { return c05_post_shape1(shape, 0, 0, 1, stop, 0, 0, ret); }
-static inline int pre_verif_shape_slice_nni(sv_t shape, int step) { return c05_pre_shape1(shape) && step != 0; }
-static inline int post_verif_shape_slice_nni(sv_t shape, int step, sv_t ret) { return c05_post_shape1(shape, 0, 0, 0, 0, 1, step, ret); }
-static inline int pre_verif_shape_slice_nnn(sv_t shape) { return c05_pre_shape1(shape); }
-static inline int post_verif_shape_slice_nnn(sv_t shape, sv_t ret) { return c05_post_shape1(shape, 0, 0, 0, 0, 0, 0, ret); }
+/* ---- the 8 {int,None}^3 encodings of a[start:stop:step] (i = int part, n = None part) */
 
+static inline int pre_verif_shape_slice_iii(sv_t shape, int start, int stop, int step) { return c05_pre_shape1(shape) && c05_step_ok(step); }
+static inline int post_verif_shape_slice_iii(sv_t shape, int start, int stop, int step, sv_t ret) { return c05_post_shape1(shape, 1, start, 1, stop, 1, step, ret); }
 static inline int pre_verif_slice_iii(sv_t indices, sv_t shape, int start, int stop, int step) { return step != 0 && c05_pre_index1(indices, shape, 1, start, 1, stop, 1, step); }
 static inline int post_verif_slice_iii(sv_t indices, sv_t shape, int start, int stop, int step, sv_t ret) { return c05_post_index1(indices, shape, 1, start, 1, stop, 1, step, ret); }
+static inline int pre_verif_shape_slice_iin(sv_t shape, int start, int stop) { return c05_pre_shape1(shape); }
+static inline int post_verif_shape_slice_iin(sv_t shape, int start, int stop, sv_t ret) { return c05_post_shape1(shape, 1, start, 1, stop, 0, 0, ret); }
 static inline int pre_verif_slice_iin(sv_t indices, sv_t shape, int start, int stop) { return c05_pre_index1(indices, shape, 1, start, 1, stop, 0, 0); }
 static inline int post_verif_slice_iin(sv_t indices, sv_t shape, int start, int stop, sv_t ret) { return c05_post_index1(indices, shape, 1, start, 1, stop, 0, 0, ret); }
+static inline int pre_verif_shape_slice_ini(sv_t shape, int start, int step) { return c05_pre_shape1(shape) && c05_step_ok(step); }
+static inline int post_verif_shape_slice_ini(sv_t shape, int start, int step, sv_t ret) { return c05_post_shape1(shape, 1, start, 0, 0, 1, step, ret); }
 static inline int pre_verif_slice_ini(sv_t indices, sv_t shape, int start, int step) { return step != 0 && c05_pre_index1(indices, shape, 1, start, 0, 0, 1, step); }
 static inline int post_verif_slice_ini(sv_t indices, sv_t shape, int start, int step, sv_t ret) { return c05_post_index1(indices, shape, 1, start, 0, 0, 1, step, ret); }
+static inline int pre_verif_shape_slice_inn(sv_t shape, int start) { return c05_pre_shape1(shape); }
+static inline int post_verif_shape_slice_inn(sv_t shape, int start, sv_t ret) { return c05_post_shape1(shape, 1, start, 0, 0, 0, 0, ret); }
 static inline int pre_verif_slice_inn(sv_t indices, sv_t shape, int start) { return c05_pre_index1(indices, shape, 1, start, 0, 0, 0, 0); }
 static inline int post_verif_slice_inn(sv_t indices, sv_t shape, int start, sv_t ret) { return c05_post_index1(indices, shape, 1, start, 0, 0, 0, 0, ret); }
+static inline int pre_verif_shape_slice_nii(sv_t shape, int stop, int step) { return c05_pre_shape1(shape) && c05_step_ok(step); }
+static inline int post_verif_shape_slice_nii(sv_t shape, int stop, int step, sv_t ret) { return c05_post_shape1(shape, 0, 0, 1, stop, 1, step, ret); }
 static inline int pre_verif_slice_nii(sv_t indices, sv_t shape, int stop, int step) { return step != 0 && c05_pre_index1(indices, shape, 0, 0, 1, stop, 1, step); }
 static inline int post_verif_slice_nii(sv_t indices, sv_t shape, int stop, int step, sv_t ret) { return c05_post_index1(indices, shape, 0, 0, 1, stop, 1, step, ret); }
+static inline int pre_verif_shape_slice_nin(sv_t shape, int stop) { return c05_pre_shape1(shape); }
+static inline int post_verif_shape_slice_nin(sv_t shape, int stop, sv_t ret) { return c05_post_shape1(shape, 0, 0, 1, stop, 0, 0, ret); }
 static inline int pre_verif_slice_nin(sv_t indices, sv_t shape, int stop) { return c05_pre_index1(indices, shape, 0, 0, 1, stop, 0, 0); }
 static inline int post_verif_slice_nin(sv_t indices, sv_t shape, int stop, sv_t ret) { return c05_post_index1(indices, shape, 0, 0, 1, stop, 0, 0, ret); }
+static inline int pre_verif_shape_slice_nni(sv_t shape, int step) { return c05_pre_shape1(shape) && c05_step_ok(step); }
+static inline int post_verif_shape_slice_nni(sv_t shape, int step, sv_t ret) { return c05_post_shape1(shape, 0, 0, 0, 0, 1, step, ret); }
 static inline int pre_verif_slice_nni(sv_t indices, sv_t shape, int step) { return step != 0 && c05_pre_index1(indices, shape, 0, 0, 0, 0, 1, step); }
 static inline int post_verif_slice_nni(sv_t indices, sv_t shape, int step, sv_t ret) { return c05_post_index1(indices, shape, 0, 0, 0, 0, 1, step, ret); }
+static inline int pre_verif_shape_slice_nnn(sv_t shape) { return c05_pre_shape1(shape); }
+static inline int post_verif_shape_slice_nnn(sv_t shape, sv_t ret) { return c05_post_shape1(shape, 0, 0, 0, 0, 0, 0, ret); }
 static inline int pre_verif_slice_nnn(sv_t indices, sv_t shape) { return c05_pre_index1(indices, shape, 0, 0, 0, 0, 0, 0); }
 static inline int post_verif_slice_nnn(sv_t indices, sv_t shape, sv_t ret) { return c05_post_index1(indices, shape, 0, 0, 0, 0, 0, 0, ret); }
+
+/* ---- 2-d, integer index + 2-tuple slice: a[i, start:stop]  (the integer drops its axis) */
+static inline int pre_verif_shape_slice_2d_int_ii(sv_t shape, int i, int start, int stop)
+{ return SV_LEN(shape) == 2UL && c05_extents_ok(shape) && c05_int_ok(C05_NA(shape, 0), i); }
+static inline int post_verif_shape_slice_2d_int_ii(sv_t shape, int i, int start, int stop, sv_t ret)
+{
+  py_slice p = py_slice_adjust(C05_NA(shape, 1), 1, start, 1, stop, 0, 0);
+  return SV_LEN(ret) == 1UL && SV_AT(ret, 0) == (unsigned long)p.len;
+}
+static inline int pre_verif_slice_2d_int_ii(sv_t indices, sv_t shape, int i, int start, int stop)
+{
+  if (!(SV_LEN(shape) == 2UL && c05_extents_ok(shape) && c05_int_ok(C05_NA(shape, 0), i) && SV_LEN(indices) == 1UL)) return 0;
+  py_slice p = py_slice_adjust(C05_NA(shape, 1), 1, start, 1, stop, 0, 0);
+  return SV_AT(indices, 0) < (unsigned long)p.len;
+}
+static inline int post_verif_slice_2d_int_ii(sv_t indices, sv_t shape, int i, int start, int stop, sv_t ret)
+{
+  py_slice p = py_slice_adjust(C05_NA(shape, 1), 1, start, 1, stop, 0, 0);
+  return SV_LEN(ret) == 2UL && SV_AT(ret, 0) == c05_int_norm(C05_NA(shape, 0), i)
+      && SV_AT(ret, 1) == (unsigned long)p.start + SV_AT(indices, 0) && SV_AT(ret, 1) < SV_AT(shape, 1);
+}
+
+/* ---- rank r = 3..8 (symbolic), integer + tuple + Ellipsis + integer: a[i, ::step, ..., j]
+ *      result shape: ( len(n1, ::step), n2, ..., n_{r-2} )      (both integers drop their axis, the Ellipsis keeps r-3 axes)
+ *      source index of (k, m2, ..., m_{r-2}): ( i', start'+k*step, m2, ..., m_{r-2}, j' )
+ * ghosts: g = universally quantified position inside the Ellipsis block; C05_L0 / C05_R0 / C05_R1 carry the values already
+ * stored in the result when the Ellipsis loop starts (loop invariants cannot call functions) */
+GHOST(unsigned long, g)
+GHOST(unsigned long, C05_L0)
+GHOST(unsigned long, C05_R0)
+GHOST(unsigned long, C05_R1)
+static inline int pre_verif_shape_slice_ell(sv_t shape, int i, int step, int j)
+{
+  if (!(SV_LEN(shape) >= 3UL && SV_LEN(shape) <= CAP && c05_extents_ok(shape) && c05_step_ok(step))) return 0;
+  if (!(c05_int_ok(C05_NA(shape, 0), i) && c05_int_ok(C05_NA(shape, SV_LEN(shape) - 1UL), j))) return 0;
+  return GHOST_DEF(C05_L0, (unsigned long)py_slice_adjust(C05_NA(shape, 1), 0, 0, 0, 0, 1, step).len);
+}
+static inline int post_verif_shape_slice_ell(sv_t shape, int i, int step, int j, sv_t ret)
+{
+  py_slice p = py_slice_adjust(C05_NA(shape, 1), 0, 0, 0, 0, 1, step);
+  return SV_LEN(ret) == SV_LEN(shape) - 2UL && SV_AT(ret, 0) == (unsigned long)p.len
+      && IMPLIES(g < SV_LEN(shape) - 3UL, SV_AT(ret, 1UL + g) == SV_AT(shape, 2UL + g));
+}
+static inline int pre_verif_slice_ell(sv_t indices, sv_t shape, int i, int step, int j)
+{
+  if (!(SV_LEN(shape) >= 3UL && SV_LEN(shape) <= CAP && c05_extents_ok(shape) && step != 0)) return 0;
+  if (!(c05_int_ok(C05_NA(shape, 0), i) && c05_int_ok(C05_NA(shape, SV_LEN(shape) - 1UL), j))) return 0;
+  if (SV_LEN(indices) != SV_LEN(shape) - 2UL) return 0;
+  py_slice p = py_slice_adjust(C05_NA(shape, 1), 0, 0, 0, 0, 1, step);
+  if (!(SV_AT(indices, 0) < (unsigned long)p.len)) return 0;
+  for (unsigned long t = 0; t < CAP; t++)
+    if (t + 3UL < SV_LEN(shape) && !(SV_AT(indices, 1UL + t) < SV_AT(shape, 2UL + t))) return 0;
+  return GHOST_DEF(C05_R0, c05_int_norm(C05_NA(shape, 0), i))
+      && GHOST_DEF(C05_R1, (unsigned long)p.start + MUL_ul(SV_AT(indices, 0), (unsigned long)p.step));
+}
+static inline int post_verif_slice_ell(sv_t indices, sv_t shape, int i, int step, int j, sv_t ret)
+{
+  py_slice p = py_slice_adjust(C05_NA(shape, 1), 0, 0, 0, 0, 1, step);
+  unsigned long r = SV_LEN(shape);
+  return SV_LEN(ret) == r && SV_AT(ret, 0) == c05_int_norm(C05_NA(shape, 0), i)
+      && SV_AT(ret, 1) == (unsigned long)p.start + MUL_ul(SV_AT(indices, 0), (unsigned long)p.step)
+      && IMPLIES(g < r - 3UL, SV_AT(ret, 2UL + g) == SV_AT(indices, 1UL + g) && SV_AT(ret, 2UL + g) < SV_AT(shape, 2UL + g))
+      && SV_AT(ret, r - 1UL) == c05_int_norm(C05_NA(shape, r - 1UL), j);
+}
